@@ -252,13 +252,40 @@ def pred_test(names, pat, idx=0, require_all=True):
     return test
 
 
+class AssumeReturn:
+    """value assumption: a call whose result is a single predicate satisfying test(name, args) is assumed to have returned `truth`
+    (unlike a cut at the switch, this also holds where the result is only one operand of a short-circuit `&&` / `||`)"""
+
+    def __init__(self, name, test, truth=True):
+        self.name = name
+        self.test = test
+        self.truth = truth
+
+    def apply(self, ret):
+        if len(ret.atoms) != 1 or any(not k.startswith("#") for k in ret.fields):
+            return None
+        (a, ops), = ret.atoms
+        if isinstance(a, tuple) and a[0] == "pred" and self.test(a[1], a[2:]):
+            return V("Const(true)" if self.truth else "Const(false)")
+        return None
+
+
 class CutPolicy(Policy):
-    def __init__(self, cuts=(), opaque=(), summarize=None):
+    def __init__(self, cuts=(), opaque=(), summarize=None, assume=()):
+        self.assume = list(assume)
         self.cuts = list(cuts)
         self.opaque = frozenset(opaque)
         if summarize is not None:
             self.summarize = frozenset(summarize)
         self.hits = {}      # cut name -> list of (fn, bb)
+
+    def on_return(self, I, name, ret):
+        for a in self.assume:
+            r = a.apply(ret)
+            if r is not None:
+                self.hits.setdefault(a.name, []).append((name, -1))
+                return r
+        return ret
 
     def filter_edges(self, I, frame, bb, opv, labels3):
         if not self.cuts:
